@@ -153,6 +153,12 @@ pub const MSG_PORT_DATA_FLAG_IDS: u8 = 0b0000_1000;
 /// Port data, limited by the maximum chunk size, may be append to a message.
 pub const MAX_MSG_LENGTH: usize = 16;
 
+/// Length of the hello message: message id, magic, version and exchanged configuration.
+pub const HELLO_MSG_LENGTH: u32 = 1 + MAGIC.len() as u32 + 1 + 8 + 4 + 4 + 2;
+
+/// Length of the port data message without ports: message id, port and flags.
+pub const PORT_DATA_HEADER_LENGTH: u32 = 1 + 4 + 1;
+
 impl MultiplexMsg {
     pub(crate) fn write(&self, mut writer: impl io::Write) -> Result<(), io::Error> {
         match self {
